@@ -623,7 +623,9 @@ def parse_docstring(
     except ParseError:
         # this error should already by stored in the errs list
         parsed_doc = pydoctor.epydoc.markup.plaintext.parse_docstring(doc, errs)
-    except Exception as e:
+    except (Exception, SystemExit) as e:
+        # SystemExit: docutils calls sys.exit() when it cannot set up its
+        # settings, for instance because of a malformed docutils.conf.
         errs.append(ParseError(f'{e.__class__.__name__}: {e}', 1))
         parsed_doc = pydoctor.epydoc.markup.plaintext.parse_docstring(doc, errs)
     if errs:
